@@ -567,6 +567,26 @@ class Piece:
         self._fired('R15', 'windows(2).map(..).collect() -> loop over adjacent pairs')
         return self
 
+    def R46(self, var):
+        """`let V = E.windows(2).all(|w| C);` -> `let mut V = true; for i__ in 1..E.len() { let w = &E[i__ - 1..i__ + 1]; if !(C) { V = false; } }`
+        (std: `all` is the conjunction over the adjacent pairs; it short-circuits, which is unobservable for a pure closure)"""
+        text = self.text
+        code = scan(text)
+        m = re.search(r'let %s = ([\w\.]+?)(?=\s*\.windows\(2\))' % re.escape(var), text)
+        if not m:
+            raise LostAnchor('rule R46 in %s: `let %s = <slice>.windows(2).all(..)` not found' % (self.label, var))
+        calls, end = self._chain(text, code, m.end())
+        names = [c[0] for c in calls]
+        fm = re.match(r'\s*\|(\w+)\|\s*(.*)$', calls[1][1], re.S) if len(calls) > 1 else None
+        if names != ['windows', 'all'] or calls[0][1].strip() != '2' or not fm or text[end:end + 1] != ';':
+            raise LostAnchor('rule R46 in %s: chain is %s, expected windows(2)/all' % (self.label, names))
+        ind = re.match(r'[ \t]*', text[_line_start(text, m.start()):]).group(0)
+        new = ('let mut %s = true;\n%sfor i__ in 1..%s.len() {\n%s    let %s = &%s[i__ - 1..i__ + 1];\n%s    if !(%s) { %s = false; }\n%s}'
+               % (var, ind, m.group(1), ind, fm.group(1), m.group(1), ind, fm.group(2).strip(), var, ind))
+        self.text = text[:m.start()] + new + text[end + 1:]
+        self._fired('R46', 'windows(2).all(p) -> loop over adjacent pairs')
+        return self
+
     def R16(self, var, elem_ty):
         """`let V = E.iter().copied().max().unwrap_or(D);` -> fold keeping the largest element seen (None for an empty E), then `.unwrap_or(D)`"""
         text = self.text
